@@ -260,6 +260,33 @@ def run(F, R, tier):
                  "the %s arm of DepsFiller::fill visits nothing of the matched node: what such a declaration references is never traced, so the emitted declaration file mentions names it does not declare" % sorted(names), where(arm["body"]))
     R.floor("C09-D leaf arms of DepsFiller::fill", n_arm, 30)
 
+    # every visitor override of the dependency analyser descends into (or records) its node
+    n_ov = 0
+    for b in F.bodies:
+        if b.get("derived") or not b["path"].startswith("<" + DF + " as "):
+            continue
+        n_ov += 1
+        acts = [x for x in b["_nodes"] if x.get("k") in ("MethodCall", "Call") and ((x.get("name") or "").startswith(("visit_", "add_", "with_context")) or (x.get("fn") or "").split("::")[-1].startswith(("visit_", "add_", "with_context", "push")))]
+        R.ob("C09-D", "%s descends into or records its node" % b["path"].split("::")[-1], bool(acts),
+             "the %s override of DepsFiller does nothing: references nested below such a node are never collected" % b["path"].split("::")[-1], b["file"])
+    R.floor("C09-D DepsFiller visitor overrides", n_ov, 25)
+    # every declaration of a symbol is traced: loops over a symbol's declarations never stop early
+    n_dl = 0
+    for lp in [n for n in am["_nodes"] if n["k"] == "For"]:
+        if not (any(x.get("k") == "MethodCall" and x["name"] == "decls" for x in walk(lp["iter"])) or tyc(F, lp["iter"], "SymbolDecl")):
+            continue
+        n_dl += 1
+        early = []
+        for x in walk(lp["body"]):
+            if x.get("k") in ("Break", "Ret"):
+                inner = [a for a in k_ancestors(x) if a.get("k") in ("For", "While", "Loop", "Closure") and is_within(a, lp["body"])]
+                if inner:
+                    continue
+                early.append(x)
+        R.ob("C09-X", "every declaration of a traced symbol is analysed", not early,
+             "a loop over `symbol.decls()` in analyze_module_info can stop early (`%s`): later declarations of a merged symbol (overloads, namespace + function, interface + class) are never traced" % (expr_text(early[0])[:20] if early else ""), where(early[0]) if early else "")
+    R.floor("C09-X declaration loops", n_dl, 2)
+
     # ---------------- C09-R (referrer of a re-queued qualified trace) ----------
     # the Id trace decides from the referrer whether the parent of a member has
     # to be traced; a qualified trace that is re-queued must therefore keep the
